@@ -90,11 +90,18 @@ def unsupported(kind, process, pto, tmc=0, scheme="ZM-VFNS"):
     return None
 
 
+def ints(lo, hi):
+    """st.integers(lo, hi) written as an offset from lo. Same distribution for Hypothesis' own generation; needed for the
+    atheris driver: BytestringProvider.draw_integer of hypothesis 6.168 draws (hi-lo).bit_length() bits and compares the raw
+    value with [lo, hi] without adding lo, so integers(4, 6) or integers(350, 600) overrun every fuzz input."""
+    return st.integers(0, hi - lo).map(lambda v, lo=lo: v + lo)
+
+
 # --------------------------------------------------------------------------- grids
 @st.composite
 def grids(draw, nmin=4, nmax=12, umin=1.0, umax=5.0, max_degree=5):
     """Interpolation set-up: strictly increasing nodes ending at 1.0, degree, log flag."""
-    n = draw(st.integers(nmin, nmax))
+    n = draw(ints(nmin, nmax))
     u = draw(st.floats(umin, umax))
     xmin = 10.0 ** (-u)
     family = draw(st.sampled_from(["geometric", "make_grid", "jittered", "linear"]))
@@ -126,7 +133,7 @@ def grids(draw, nmin=4, nmax=12, umin=1.0, umax=5.0, max_degree=5):
     if len(out) < 3:
         out = [xmin, math.sqrt(xmin), 1.0]
     n = len(out)
-    degree = draw(st.integers(1, min(n - 1, max_degree)))
+    degree = draw(ints(1, min(n - 1, max_degree)))
     is_log = draw(st.booleans())
     # keep the interpolation well conditioned (Lebesgue constant <= 50): e.g. linear-mode degree-5 polynomials on
     # log-spaced nodes reach 1e8 and make every comparison meaningless; lower the degree by construction
@@ -154,7 +161,7 @@ def x_in_grid(draw, grid, lo_frac=0.0, allow_one=False, classes=None):
         i = draw(st.integers(0, len(g) - (1 if allow_one else 2)))
         return g[i], cls
     if cls == "near_node":
-        i = draw(st.integers(1, len(g) - 2))
+        i = draw(ints(1, len(g) - 2))
         s = draw(st.sampled_from([-1, 1]))
         # relative distance to the node: 1e-9 as often as any other decade between 1e-12 and 1e-3
         dlt = draw(st.sampled_from([1e-9, 1e-9]) | st.floats(3.0, 12.0).map(lambda e: float(f"{10.0 ** -e:.3g}")))
@@ -201,7 +208,7 @@ def masses(draw, dyadic=False):
     """Sorted heavy-quark masses and threshold ratios (matching scales ordered, as eko's nf_default
     assumes)."""
     if dyadic:
-        ms = sorted(draw(st.lists(st.integers(5, 2000), min_size=3, max_size=3, unique=True)))
+        ms = sorted(draw(st.lists(ints(5, 2000), min_size=3, max_size=3, unique=True)))
         mc, mb, mt = [m / 4.0 for m in ms]
         ks = [draw(st.sampled_from([0.5, 0.75, 1.0, 1.5, 2.0])) for _ in range(3)]
     else:
